@@ -77,6 +77,7 @@ func genC14(c *h.Ctx) {
 		}
 	}
 	genProbes(c)
+	genDynFn(c)
 }
 
 func implC14(line string) string {
@@ -84,6 +85,9 @@ func implC14(line string) string {
 	f := strings.Fields(line)
 	if len(f) < 3 {
 		return "bad-op"
+	}
+	if f[0] == "dynfn" {
+		return implDynFn(f)
 	}
 	if f[0] == "noprobe" {
 		return "missing"
@@ -135,6 +139,9 @@ func implC14(line string) string {
 	case "link":
 		return get(d.Link, f[2])
 	case "bind":
+		if f[3] == "@self" {
+			return get(d.Static, "self "+f[2])
+		}
 		return get(d.Static, "bind "+f[2]+" "+f[3])
 	case "static":
 		return get(d.Static, f[2])
